@@ -273,7 +273,7 @@ func TestAllocs(t *testing.T) {
 			if gen.Chance(t, 1, 6, "dotseg") {
 				// a path that is not in its shortest form: a wildcard captures "." or ".." like any other value
 				segs := strings.Split(path, "/")
-				if k := gen.IntR(t, 1, len(segs)-1, "dotat"); segs[k] != "" {
+				if k := gen.IntR(t, 1, max(len(segs)-1, 1), "dotat"); k < len(segs) && segs[k] != "" {
 					segs[k] = gen.Pick(t, []string{".", ".."}, "dot")
 					path = strings.Join(segs, "/")
 				}
@@ -285,13 +285,23 @@ func TestAllocs(t *testing.T) {
 				}
 				stats.Class("request:dot-segment")
 			}
+			escaped := false
+			if gen.Chance(t, 1, 6, "escaped") {
+				// an escaped slash inside a segment: the request reaches the router with URL.RawPath set
+				segs := strings.Split(path, "/")
+				if k := gen.IntR(t, 1, max(len(segs)-1, 1), "escat"); k < len(segs) && segs[k] != "" {
+					segs[k] = gen.Pick(t, []string{"a%2Fb", "x%2Fa", "%41b"}, "escval")
+					path, escaped = strings.Join(segs, "/"), true
+					stats.Class("request:escaped-path")
+				}
+			}
 			if host != "" && gen.Chance(t, 1, 3, "port") {
 				host += gen.Pick(t, []string{":8080", ".", ".:443"}, "suffix")
 			}
 			if strings.Contains(path, "//") {
 				continue
 			}
-			c.Reqs = append(c.Reqs, rt.Req{Method: src.Method, Host: host, Path: path})
+			c.Reqs = append(c.Reqs, rt.Req{Method: src.Method, Host: host, Path: path, Escaped: escaped})
 		}
 		defer stats.Guard("alloc", func() any { return c })()
 		stats.Sample(c)
